@@ -177,6 +177,14 @@ def run(ctx):
         if ok:
             end = P.lin(dict(rng[3])["end"])
             ok = end == ({"len(param2)": 1}, -1)
+        if not ok:
+            # `let Some((last, rest)) = relative_domain.split_last()` / split_first(): `rest` has one element fewer
+            x = sl
+            if x[0] == "field" and x[2] == "1":
+                y = A.peel(x[1])
+                if y[0] == "field" and y[2] == "0" and y[1][0] == "downcast" and y[1][2] == "Some":
+                    c = A.peel(y[1][1])
+                    ok = c[0] == "call" and (c[1].endswith("<impl [T]>::split_last") or c[1].endswith("<impl [T]>::split_first")) and A.peel(c[2][0]) == ("param", 2)
         ctx.check(ok, "C17.3", "%s:measure@%s" % (A.short(g.key), g.loc(b).split(":")[-1]), "recursive call on relative_domain[0 .. len-1] (strictly shorter)",
                   "recursive call argument is %s" % A.show(e[2][1])[:100], g.loc(b))
 
